@@ -16,8 +16,9 @@ Theorem C01_write_then_read_composition : forall m variable nl t,
 Proof. exact write_then_read. Qed.
 Print Assumptions C01_write_then_read_composition.
 
-(* ... discharged for every message whose present tags are covered - the 48 regular tags with a static
-   length guard, {1500} and {3600} - and whose values are canonical FAIM text: no element is dropped, cut,
+(* ... discharged for every message whose present tags are covered - the 56 regular tags, {1500} and {3600}
+   (all but {1120} and {8200}) - and whose values are canonical FAIM text (for 8 tags canonical includes: long
+   enough for the reader's own length guard, which validity implies): no element is dropped, cut,
    shifted or replaced; fixed and variable texts read back to the same message *)
 Theorem C01_write_then_read : forall m variable nl t,
   wf_msg m -> msg_covered m -> sep_ok nl ->
@@ -65,5 +66,5 @@ Example sample_meets_the_hypotheses :
   end.
 Proof. vm_compute. repeat split. eexists. split; [reflexivity|]. apply Nat.leb_le. reflexivity. Qed.
 
-Example fifty_tags_covered : length (filter covered (seq 0 ntags)) = 50.
+Example fifty_eight_tags_covered : length (filter covered (seq 0 ntags)) = 58.
 Proof. vm_compute. reflexivity. Qed.
